@@ -50,6 +50,10 @@ type report struct {
 	CLI         []string          `json:"cli_redirected"` // process-global facilities redirected in cmd/php-parser
 	CLIMain     bool              `json:"cli_main"`       // func main found and exported as ZZMain
 	SyncLib     int               `json:"sync_lib"`       // library files importing sync or sync/atomic
+	// places where DefaultBlockSize is used inside an expression (not passed on
+	// as it is): small knob values could then yield sizes the tree never meets
+	KnobEntangled []string `json:"knob_entangled"`
+	NewPoolNoted  []string `json:"newpool_noted"`
 }
 
 var noKnob bool
@@ -501,6 +505,52 @@ func processFile(root, path string, isCmd bool) error {
 	in.walk(f)
 	if isCmd {
 		fixUnusedImports(f)
+	}
+
+	// uses of DefaultBlockSize as an operand
+	isDBS := func(e ast.Expr) bool {
+		switch x := e.(type) {
+		case *ast.Ident:
+			return x.Name == "DefaultBlockSize"
+		case *ast.SelectorExpr:
+			return x.Sel.Name == "DefaultBlockSize"
+		case *ast.ParenExpr:
+			_ = x
+		}
+		return false
+	}
+	ast.Inspect(f, func(n ast.Node) bool {
+		switch x := n.(type) {
+		case *ast.BinaryExpr:
+			if isDBS(x.X) || isDBS(x.Y) {
+				rep.KnobEntangled = append(rep.KnobEntangled, fmt.Sprintf("%s:%d", rel, fset.Position(x.Pos()).Line))
+			}
+		case *ast.UnaryExpr:
+			if isDBS(x.X) {
+				rep.KnobEntangled = append(rep.KnobEntangled, fmt.Sprintf("%s:%d", rel, fset.Position(x.Pos()).Line))
+			}
+		case *ast.ArrayType:
+			if x.Len != nil && isDBS(x.Len) {
+				rep.KnobEntangled = append(rep.KnobEntangled, fmt.Sprintf("%s:%d", rel, fset.Position(x.Pos()).Line))
+			}
+		}
+		return true
+	})
+	// NewPool(n int) in the pool files reports the size it was asked for
+	if rel == "pkg/token/pool.go" || rel == "pkg/position/pool.go" {
+		for _, d := range f.Decls {
+			fd, ok := d.(*ast.FuncDecl)
+			if !ok || fd.Recv != nil || fd.Name.Name != "NewPool" || fd.Body == nil || fd.Type.Params == nil || len(fd.Type.Params.List) == 0 {
+				continue
+			}
+			p0 := fd.Type.Params.List[0]
+			if id, ok := p0.Type.(*ast.Ident); !ok || id.Name != "int" || len(p0.Names) == 0 || p0.Names[0].Name == "_" {
+				continue
+			}
+			fd.Body.List = append([]ast.Stmt{simCall("NoteBlockSize", ast.NewIdent(p0.Names[0].Name))}, fd.Body.List...)
+			in.used = true
+			rep.NewPoolNoted = append(rep.NewPoolNoted, rel)
+		}
 	}
 
 	// knob
